@@ -72,7 +72,9 @@ pub fn classify(args: &[String]) -> i32 {
                         out.push(format!("[{},{}]", p.off + 64 + i * slot, json_str(&k)));
                     }
                 }
-                Err(_) => fsm.reset_fsm(),
+                Err(_) => {
+                    let _ = fsm.reset_fsm();
+                }
             }
         }
     }
